@@ -1151,6 +1151,8 @@ func run(o hx.RunOpts) error {
 		"de-duplication is fixed per case; with it off only fresh ids are upserted (documented rule) apart from one directed case",
 		"queries whose two closest centroids tie in distance, or with more than 12 candidates, are judged by the direct oracle only (Go map order / unstable sort)",
 		"the Lookup store and SplitCentroid/AddCentroid are not exercised",
+		"count tracking is not combined with the ingestion buffer; a case ends at its first rejected commit, failing or panicking Optimize (the state after it is not defined by the model)",
+		"vectors are 2-dimensional rows of a fixed table of 9; six ids per case (one directed case with 105)",
 	}
 	return s.Finish()
 }
